@@ -148,7 +148,9 @@ func noEffect(text string, returnOnly bool) string {
 		if returnOnly && i == 2 {
 			continue // a return statement is legal in a FunctionBody
 		}
+		done := inOtto(rt.name)
 		rr := rt.run()
+		done()
 		if rr.Panic != nil {
 			return fmt.Sprintf("(b) %s panicked: %v", rt.name, rr.Panic)
 		}
